@@ -163,7 +163,7 @@ def render(e, minprec=0):
     if op == "num":
         s = num_text(e["v"]["m"])
     elif op == "str":
-        s = str_text(e["v"])
+        s = str_text(cps(e["rtext"])) if "rtext" in e else str_text(e["v"])      # rtext: the lexical form where the spec sees an expanded name
     elif op == "var":
         s = "$" + e["name"]
     elif op == "fn":
@@ -206,7 +206,7 @@ def render(e, minprec=0):
 def strip_render_only(e):
     """AST as the spec sees it (rendering hints removed)"""
     if isinstance(e, dict):
-        return {k: strip_render_only(v) for k, v in e.items() if k not in ("abbr", "prefix")}
+        return {k: strip_render_only(v) for k, v in e.items() if k not in ("abbr", "prefix", "rtext")}
     if isinstance(e, list):
         return [strip_render_only(x) for x in e]
     return e
